@@ -25,19 +25,21 @@ func init() {
 }
 
 func runC08(c *core.Ctx) {
-	ruleDecodeReturns(c)
-	ruleBudgetReaches(c)
-	ruleDimensionCaps(c)
-	ruleChainCap(c)
-	ruleCloseForwarding(c)
-	rulePoolOwnership(c)
-	ruleLZWPrefixOrder(c)
-	ruleIndexClamps(c)
-	ruleDCTPlaneCharge(c)
-	ruleJPEGHeaderValidation(c)
-	ruleFuncTableSlots(c, "C08-R14")
-	ruleAllocAfterCharge(c, "C08-R15")
-	ruleAliasHygiene(c, [3]string{"C08-R11", "C08-R12", "C08-R13"}, "pdf/internal/filter/jbig2", "pdf/internal/filter/dct/jpeg")
+	c.Guard(func() { ruleDecodeReturns(c) })
+	c.Guard(func() { ruleBudgetReaches(c) })
+	c.Guard(func() { ruleDimensionCaps(c) })
+	c.Guard(func() { ruleChainCap(c) })
+	c.Guard(func() { ruleCloseForwarding(c) })
+	c.Guard(func() { rulePoolOwnership(c) })
+	c.Guard(func() { ruleLZWPrefixOrder(c) })
+	c.Guard(func() { ruleIndexClamps(c) })
+	c.Guard(func() { ruleDCTPlaneCharge(c) })
+	c.Guard(func() { ruleJPEGHeaderValidation(c) })
+	c.Guard(func() { ruleFuncTableSlots(c, "C08-R14") })
+	c.Guard(func() { ruleAllocAfterCharge(c, "C08-R15") })
+	c.Guard(func() {
+		ruleAliasHygiene(c, [3]string{"C08-R11", "C08-R12", "C08-R13"}, "pdf/internal/filter/jbig2", "pdf/internal/filter/dct/jpeg")
+	})
 }
 
 // filterImplementers lists the named types of package pdf that implement pdf.Filter.
